@@ -544,7 +544,7 @@ func (e *Engine) execInstr(fr *Frame, st *State, ins ssa.Instruction) {
 	case *ssa.RunDefers:
 		e.runDefers(fr, st, ins)
 	case *ssa.Lookup, *ssa.MakeMap, *ssa.MapUpdate, *ssa.MakeChan, *ssa.Send, *ssa.Select, *ssa.Go, *ssa.Range, *ssa.Next:
-		unsupported("instruction %T (%s)", ins, ins)
+		unsupported("instruction %T (%s) in %s", ins, ins, fr.fn.String())
 	case *ssa.SliceToArrayPointer, *ssa.MultiConvert:
 		unsupported("instruction %T", ins)
 	default:
